@@ -239,6 +239,8 @@ pub struct Db {
     pub db: Arc<LocustDB>,
     dir: Option<std::path::PathBuf>,
     pub tainted: bool,
+    /// column names of the last successful query (needed to read a `SELECT *` answer)
+    pub last_colnames: Vec<String>,
 }
 
 impl Db {
@@ -371,7 +373,7 @@ pub fn build(table: &Table, layout: &Layout) -> Result<Db, BuildError> {
         Ok(db) => Arc::new(db),
         Err(e) => return Err(BuildError::Panic(lvharness::suite::panic_message(e))),
     };
-    let mut handle = Db { db, dir, tainted: false };
+    let mut handle = Db { db, dir, tainted: false, last_colnames: vec![] };
     let mut start = 0usize;
     for (bi, &len) in layout.batches.iter().enumerate() {
         let mut columns = HashMap::new();
@@ -578,6 +580,7 @@ impl Db {
             }
             Ok(Ok(Ok(output))) => {
                 let _ = take_panics();
+                self.last_colnames = output.colnames.clone();
                 QOut::Rows(
                     output
                         .rows
@@ -632,4 +635,111 @@ pub fn run_one(table: &Table, layout: &Layout, sql: &str, cache: &mut Option<Db>
         // nothing was ingested: the table does not exist
     }
     cache.as_mut().unwrap().query(sql)
+}
+
+// ---- a database caught in the middle of a WAL flush ------------------------------------------------
+
+/// Rows [0, a) in a flushed partition (none when a = 0), rows [a, b) in the FROZEN buffer of a WAL
+/// flush that is parked right after freezing (sync point `wal_flush:wal_unlocked` of the verif hooks),
+/// rows [b, n) in the open buffer. `finish` lets the flush complete.
+pub struct MidFlush {
+    pub db: Db,
+    release: Option<std::sync::mpsc::Sender<()>>,
+    flusher: Option<std::thread::JoinHandle<()>>,
+    /// did the flush thread really park inside the window?
+    pub parked: bool,
+}
+
+fn ingest_rows(db: &Arc<LocustDB>, table: &Table, from: usize, to: usize) {
+    let mut columns = HashMap::new();
+    for c in &table.cols {
+        if let Some(data) = column_data(c.kind, &c.cells[from..to], c.omit_when_null) {
+            columns.insert(c.name.clone(), ColumnBuffer { data });
+        }
+    }
+    let eb = EventBuffer { tables: HashMap::from([(TABLE.to_string(), TableBuffer::new(columns))]) };
+    runtime().block_on(async { db.ingest_efficient(eb).await });
+}
+
+pub fn build_midflush(table: &Table, a: usize, b: usize) -> Result<MidFlush, BuildError> {
+    use locustdb::verif::hooks;
+    install_panic_hook();
+    let _ = take_panics();
+    let opts = Options { threads: 2, read_threads: 1, db_path: None, partition_combine_factor: 999, metrics_table_name: None, ..Options::default() };
+    let db = Arc::new(LocustDB::new(&opts));
+    let n = table.nrows();
+    let res = std::panic::catch_unwind(std::panic::AssertUnwindSafe(|| {
+        if a > 0 {
+            ingest_rows(&db, table, 0, a);
+            db.force_flush();
+        }
+        ingest_rows(&db, table, a, b);
+    }));
+    if let Err(e) = res {
+        return Err(BuildError::Panic(format!("midflush ingest: {}", lvharness::suite::panic_message(e))));
+    }
+    let (reached_tx, reached_rx) = std::sync::mpsc::channel::<()>();
+    let (release_tx, release_rx) = std::sync::mpsc::channel::<()>();
+    let reached_tx = Mutex::new(Some(reached_tx));
+    let release_rx = Mutex::new(Some(release_rx));
+    hooks::set_sync_point(Some(Arc::new(move |label: &str| {
+        if label == "wal_flush:wal_unlocked" {
+            if let Some(tx) = reached_tx.lock().unwrap().take() {
+                let rx = release_rx.lock().unwrap().take().unwrap();
+                let _ = tx.send(());
+                let _ = rx.recv_timeout(Duration::from_secs(60));
+            }
+        }
+    })));
+    let flusher = {
+        let db = db.clone();
+        std::thread::spawn(move || {
+            let _ = std::panic::catch_unwind(std::panic::AssertUnwindSafe(|| db.force_flush()));
+        })
+    };
+    let parked = reached_rx.recv_timeout(Duration::from_secs(30)).is_ok();
+    let mut mf = MidFlush {
+        db: Db { db: db.clone(), dir: None, tainted: false, last_colnames: vec![] },
+        release: Some(release_tx),
+        flusher: Some(flusher),
+        parked,
+    };
+    if !parked {
+        mf.finish();
+        return Err(BuildError::Hang(format!("force_flush never reached wal_flush:wal_unlocked: {:?}", take_panics())));
+    }
+    let res = std::panic::catch_unwind(std::panic::AssertUnwindSafe(|| ingest_rows(&db, table, b, n)));
+    if let Err(e) = res {
+        mf.finish();
+        return Err(BuildError::Panic(format!("midflush ingest (open buffer): {}", lvharness::suite::panic_message(e))));
+    }
+    Ok(mf)
+}
+
+impl MidFlush {
+    /// release the parked flush thread, wait for the flush to complete, unregister the callback
+    pub fn finish(&mut self) {
+        if let Some(tx) = self.release.take() {
+            let _ = tx.send(());
+        }
+        if let Some(h) = self.flusher.take() {
+            // bounded wait: a flush that never returns must not hang the suite
+            let started = std::time::Instant::now();
+            while !h.is_finished() && started.elapsed() < Duration::from_secs(30) {
+                std::thread::sleep(Duration::from_millis(2));
+            }
+            if h.is_finished() {
+                let _ = h.join();
+            } else {
+                self.db.tainted = true;
+            }
+        }
+        locustdb::verif::hooks::set_sync_point(None);
+    }
+}
+
+impl Drop for MidFlush {
+    fn drop(&mut self) {
+        self.finish();
+    }
 }
